@@ -23,13 +23,14 @@ import (
 const prop = "C17"
 
 func TestMain(m *testing.M) {
+	vt.Watchdog = 45 * time.Second
 	log.SetOutput(io.Discard)
 	vt.Main(m)
 }
 
 // Op is one step of a script.
 type Op struct {
-	Kind   string `json:"kind"`             // mk | rm | inject | close | peerclose
+	Kind   string `json:"kind"`             // mk | mkfull | rm | rmbad | inject | injectcall | close | peerclose
 	Filter string `json:"filter,omitempty"` // mk: all | none | once | action | onceaction
 	Action uint32 `json:"action,omitempty"` // mk(action filters) / inject
 	Target int    `json:"target,omitempty"` // rm: index into the handlers created so far, or -1 / 9999 for unknown ids
@@ -45,10 +46,14 @@ type Case struct {
 	// CloseErr: the stream's Close reports an error (the connection was already
 	// torn down underneath): handlers must be closed all the same
 	CloseErr bool `json:"close_err,omitempty"`
+	// WritesFail: whatever the endpoint writes fails, while it still reads
+	// (the peer stopped reading): it matters when the endpoint answers by
+	// itself, as it does to a call it cannot queue
+	WritesFail bool `json:"writes_fail,omitempty"`
 }
 
 func genOp(t *rapid.T, allowShutdown bool) Op {
-	kinds := []string{"mk", "mk", "mk", "rm", "rm", "rm", "rmbad", "inject", "inject", "inject", "inject"}
+	kinds := []string{"mk", "mk", "mk", "rm", "rm", "rm", "rmbad", "inject", "inject", "inject", "inject", "mkfull", "injectcall", "injectcall"}
 	if allowShutdown {
 		kinds = append(kinds, "close", "peerclose")
 	}
@@ -62,8 +67,12 @@ func genOp(t *rapid.T, allowShutdown bool) Op {
 		op.Target = rapid.IntRange(0, 20).Draw(t, "target") // index (modulo) into the handlers created so far
 	case "rmbad":
 		op.Target = rapid.SampledFrom([]int{-1, 9999, 10, 11, 1 << 30, -1 << 31}).Draw(t, "badid")
-	case "inject":
+	case "inject", "injectcall":
 		op.Action = uint32(rapid.IntRange(1, 3).Draw(t, "action"))
+	case "mkfull":
+		// a consumer with room for one message which nobody reads
+		op.Filter = "all"
+		op.Closer = true
 	}
 	return op
 }
@@ -72,6 +81,7 @@ func genSequential(t *rapid.T) Case {
 	n := rapid.IntRange(3, 40).Draw(t, "n")
 	var c Case
 	c.CloseErr = rapid.IntRange(0, 3).Draw(t, "closeerr") == 0
+	c.WritesFail = rapid.IntRange(0, 3).Draw(t, "writesfail") == 0
 	for i := 0; i < n; i++ {
 		op := genOp(t, i > 8)
 		c.Ops = append(c.Ops, op)
@@ -110,6 +120,9 @@ type handler struct {
 	filter    string
 	action    uint32
 	hasCloser bool
+	full      bool          // room for one message, never read: what it receives is not judged
+	release   chan struct{} // closed when the reader may start (at once, or for a full handler when its close callback ran)
+	relOnce   sync.Once
 	queue     chan *qnet.Message
 	closerN   int32
 	closerAt  int64
@@ -155,13 +168,21 @@ func (h *handler) match(action uint32) (bool, bool) {
 }
 
 func newHandler(op Op) *handler {
-	h := &handler{filter: op.Filter, action: op.Action, hasCloser: op.Closer, queue: make(chan *qnet.Message, 512), done: make(chan struct{}), deliveredAtCloser: -1}
+	h := &handler{filter: op.Filter, action: op.Action, hasCloser: op.Closer, queue: make(chan *qnet.Message, 512), done: make(chan struct{}), deliveredAtCloser: -1, release: make(chan struct{})}
+	if op.Kind == "mkfull" {
+		// nobody reads this queue until its close callback has run
+		h.full, h.hasCloser, h.filter = true, true, "all"
+		h.queue = make(chan *qnet.Message, 1)
+	} else {
+		close(h.release)
+	}
 	// The reader takes a message off the queue and records it under h.mu in one
 	// step (a non-blocking receive, polled), so that the close callback can
 	// count exactly what had been delivered when it ran: what the reader has
 	// recorded plus what still waits in the queue. A message beyond that count
 	// was delivered after the callback; one merely read later was not.
 	go func() {
+		<-h.release
 		for {
 			h.mu.Lock()
 			select {
@@ -201,6 +222,9 @@ func (h *handler) closer() qnet.Closer {
 		}
 		h.mu.Unlock()
 		atomic.AddInt32(&h.closerN, 1)
+		if h.full {
+			h.relOnce.Do(func() { close(h.release) })
+		}
 	}
 }
 
@@ -213,8 +237,10 @@ func waitDone(h *handler, d time.Duration) bool {
 	}
 }
 
-func frame(id, action uint32) []byte {
-	m := qnet.NewMessage(qnet.NewHeader(qnet.Event, 1, 1, action, id), []byte{1, 2, 3})
+func frame(id, action uint32) []byte { return frameOf(qnet.Event, id, action) }
+
+func frameOf(typ uint8, id, action uint32) []byte {
+	m := qnet.NewMessage(qnet.NewHeader(typ, 1, 1, action, id), []byte{1, 2, 3})
 	w := &hio.RecWriter{}
 	m.Write(w)
 	return w.Bytes()
@@ -266,6 +292,7 @@ func checkSequential(c Case) (err error) {
 	}()
 	s := hio.NewScriptStream(nil)
 	s.CloseErr = c.CloseErr
+	s.WritesFail = c.WritesFail
 	e := qnet.NewEndPoint(s)
 	var hs []*handler
 	live := map[int]*handler{} // model: id -> handler
@@ -277,7 +304,7 @@ func checkSequential(c Case) (err error) {
 	}()
 	for i, op := range c.Ops {
 		switch op.Kind {
-		case "mk":
+		case "mk", "mkfull":
 			h := newHandler(op)
 			h.id = e.MakeHandler(h.filterFn(), h.queue, h.closer())
 			h.regDone = tick()
@@ -322,7 +349,7 @@ func checkSequential(c Case) (err error) {
 			} else if err == nil && !(shutdown && isLive) {
 				return vt.Violationf("C17:remove-unknown-accepted", "step %d: RemoveHandler(%d) of an unknown or already removed handler returned no error", i, id)
 			}
-		case "inject":
+		case "inject", "injectcall":
 			if shutdown {
 				continue
 			}
@@ -335,7 +362,7 @@ func checkSequential(c Case) (err error) {
 					continue
 				}
 				matched, keep := h.match(op.Action)
-				if matched {
+				if matched && !h.full {
 					h.expected = append(h.expected, msgID)
 				}
 				if !keep {
@@ -345,7 +372,13 @@ func checkSequential(c Case) (err error) {
 					closedNow = append(closedNow, h)
 				}
 			}
-			s.Feed(frame(msgID, op.Action))
+			if op.Kind == "injectcall" {
+				// a call which a full consumer cannot take is answered by the
+				// endpoint itself with an error frame
+				s.Feed(frameOf(qnet.Call, msgID, op.Action))
+			} else {
+				s.Feed(frame(msgID, op.Action))
+			}
 			if !s.WaitIdle(wait) {
 				return vt.Violationf("C17:dispatch-stuck", "step %d: the endpoint did not finish dispatching a frame within %v", i, wait)
 			}
@@ -398,7 +431,7 @@ func checkSequential(c Case) (err error) {
 		h.mu.Lock()
 		got := append([]uint32{}, h.received...)
 		h.mu.Unlock()
-		if !sameIDs(got, h.expected) {
+		if !h.full && !sameIDs(got, h.expected) {
 			return vt.Violationf("C17:wrong-messages", "handler %d (%s action %d) received %v, its filter selects %v", h.id, h.filter, h.action, got, h.expected)
 		}
 	}
